@@ -25,6 +25,7 @@ type RegOp struct {
 	Adv      []string `json:"adv"`                // regconn: set the backend's advertised services first (nil: unchanged)
 	Fail     string   `json:"fail,omitempty"`     // regconn: "" | dead | refl:<j> | cancel
 	Schema   int      `json:"schema,omitempty"`   // regconn: 0 = whatever version the backend runs; 1, 2 = redeploy it with that version of its descriptors first
+	SimBuild int      `json:"sim_build,omitempty"` // regconn: 0 = as it is; 1 = redeploy the backend on the newer build of the sim/*.proto files first (the default), 2 = on the older one, which the gateway links (User has no email)
 }
 
 // regResult is what one registrar operation returned, stamped with driver steps.
@@ -143,6 +144,9 @@ func (g *registrar) exec(res *regResult) {
 		}
 		if op.Schema != 0 {
 			b.provider.setSchema(op.Schema)
+		}
+		if op.SimBuild != 0 {
+			b.provider.setSimOld(op.SimBuild == 2)
 		}
 		res.AdvAt, res.SchemaAt = b.provider.get(), b.provider.schemaVersion()
 		// The caller's context lives on after the call, as context.Background()
@@ -396,6 +400,10 @@ func (mr *muxRun) referenceCheck(world *World) *refResult {
 			case "regconn":
 				if rr.Op.Fail == "dead" {
 					out.Skipped = "a backend was killed: it cannot be registered again on the reference"
+					return out
+				}
+				if rr.Op.SimBuild != 0 {
+					out.Skipped = "a backend changed its build of the sim files: what it can register as now is not what it registered as"
 					return out
 				}
 				if rr.Err == nil {
